@@ -38,14 +38,16 @@ MIN_REACH = {
     "full_reaps_after_partial": {"quick": 40, "thorough": 500},
     "subsets_with_failed_write_leftovers": {"quick": 80, "thorough": 1200},
     "locations_used_before_by_another_crop": {"quick": 10, "thorough": 100},
+    "partial_reaps_racing_with_the_last_grower": {"quick": 10, "thorough": 100},
 }
 TIME_BUDGET = {"quick": 400, "thorough": 3400}
 CASE_TIMEOUT = {"quick": 300, "thorough": 900}
 
-FORMS = ["raw", "runner_ds", "raw", "to_ds", "raw", "to_df"]
+FORMS = ["raw", "runner_ds", "raw", "to_ds", "harvester_ds", "raw", "to_df"]
 KINDS = {"raw": ["float", "array:3", "bool", "str", "tuple:2", "list:2x2", "int", "dataset:2", "mixed", "iarray:3", "barray:2", "iarray:2x2"],
          "runner_ds": ["float", "array:3", "bool", "str", "dataset:2", "int"],
          "to_ds": ["float", "array:3", "dataset:2", "multi:s,a3"],
+         "harvester_ds": ["float", "array:3", "int"],
          "to_df": ["float", "str", "multi:s,s", "int"]}
 
 
@@ -168,8 +170,10 @@ def run_case(ctx, case):
             return
     try:
         with quiet():
-            if form == "runner_ds":
+            if form in ("runner_ds", "harvester_ds"):
                 runner = xyzpy.Runner(fn, var_names, var_dims=var_dims, var_coords=var_coords)
+                if form == "harvester_ds":
+                    runner = xyzpy.Harvester(runner, data_name=os.path.join(tmp, "hv.h5") if case["idx"] % 2 else None)
                 crop = xyzpy.Crop(farmer=runner, name=name, parent_dir=tmp, **ctor)
             else:
                 crop = xyzpy.Crop(fn=fn, name=name, parent_dir=tmp, **ctor)
@@ -262,7 +266,7 @@ def run_case(ctx, case):
         # --- refused without allow_incomplete, untouched ---
         try:
             with quiet():
-                c = xyzpy.Crop(name=name, parent_dir=tmp) if form != "runner_ds" else crop
+                c = xyzpy.Crop(name=name, parent_dir=tmp) if form not in ("runner_ds", "harvester_ds") else crop
                 do_reap(c)
             ctx.violation(subcase, "incomplete crop (finished %s of %d) was reaped without allow_incomplete" % (sorted(S), B),
                           dict(sig, oracle="refusal"))
@@ -281,9 +285,25 @@ def run_case(ctx, case):
         # --- partial reap ---
         try:
             with quiet():
-                c = xyzpy.Crop(name=name, parent_dir=tmp) if form != "runner_ds" else crop
+                c = xyzpy.Crop(name=name, parent_dir=tmp) if form not in ("runner_ds", "harvester_ds") else crop
                 c._all_nan_result = None
-                res = do_reap(c, allow_incomplete=True)
+                racing = form == "harvester_ds" and (case["idx"] + len(S)) % 2 == 0
+                if racing:
+                    # another worker finishes every remaining batch while the partial results are being merged: what was
+                    # returned as missing stays missing in THIS result, and nothing may be deleted
+                    orig_add = c.farmer.add_ds
+
+                    def add_then_finish(*a_, **k_):
+                        r_ = orig_add(*a_, **k_)
+                        present(set(range(1, B + 1)))
+                        return r_
+                    c.farmer.add_ds = add_then_finish
+                    ctx.count("partial_reaps_racing_with_the_last_grower")
+                try:
+                    res = do_reap(c, allow_incomplete=True)
+                finally:
+                    if racing:
+                        del c.farmer.add_ds
         except Exception as e:
             ctx.violation(subcase, "reap(allow_incomplete=True) with finished batches %s of %d raised %r" % (sorted(S), B, e),
                           dict(sig, oracle="partial-reap", **exc_sig(e)))
@@ -293,7 +313,14 @@ def run_case(ctx, case):
                 break
             continue
         ctx.count("partial_reaps")
-        if cropkit.tree_snapshot(loc) != before:
+        after_ = cropkit.tree_snapshot(loc)
+        if racing:
+            if after_ is None or any(k not in after_ or after_[k] != v for k, v in before.items()):
+                ctx.violation(subcase, "partial reap deleted crop files (the last batches were finished by another worker while it merged)",
+                              dict(sig, oracle="nothing-deleted"))
+                nviol += 1
+                break
+        elif after_ != before:
             ctx.violation(subcase, "partial reap deleted or changed crop files (default clean_up must keep everything)",
                           dict(sig, oracle="nothing-deleted"))
             nviol += 1
@@ -328,7 +355,7 @@ def run_case(ctx, case):
                     bad = "nest does not span the grid: %r" % (e,)
                 if bad is None:
                     break
-        elif form in ("runner_ds", "to_ds"):
+        elif form in ("runner_ds", "to_ds", "harvester_ds"):
             import xarray as xr
             ds = res
             if not isinstance(ds, xr.Dataset):
@@ -401,13 +428,13 @@ def run_case(ctx, case):
     if nviol == 0 and subsets:
         try:
             with quiet():
-                c = xyzpy.Crop(name=name, parent_dir=tmp) if form != "runner_ds" else crop
+                c = xyzpy.Crop(name=name, parent_dir=tmp) if form not in ("runner_ds", "harvester_ds") else crop
                 c.grow_missing()
                 res = do_reap(c)
             bad = None
             if form == "raw":
                 bad, _ = cropkit.compare_nest(res, w, constants, kind)
-            elif form in ("runner_ds", "to_ds"):
+            elif form in ("runner_ds", "to_ds", "harvester_ds"):
                 for p in req:
                     exp = _outputs(kind, probe.make(kind, {**p, **constants}))
                     for vn, ev in exp.items():
